@@ -465,10 +465,16 @@ fn bin_err_kind(r: &cli::Ran) -> String {
 // probe sources: the layout of the formatted text shows tab_spaces (indentation), max_width (where
 // the long expression and the long import list wrap), brace_style (struct / fn braces)
 
+/// the sources the seeded generators draw from (the later ones belong to enumerated families)
+const N_GENERIC_SOURCES: usize = 3;
+const PARAMS_SOURCE: usize = 3;
 const PROBE_SOURCES: &[&str] = &[
     "use aaa::{bb01,bb02,bb03,bb04,bb05,bb06,bb07,bb08,bb09,bb10,bb11,bb12,bb13,bb14,bb15,bb16,bb17,bb18,bb19,bb20,bb21,bb22,bb23,bb24,bb25,bb26,bb27,bb28};\nstruct S<T> where T:Clone{a:u32,b:T}\nfn f(x:u32)->u32{if x>1{let y=x1+x2+x3+x4+x5+x6+x7+x8+x9+y1+y2+y3+y4+y5+y6+y7+y8+y9+z1+z2+z3+z4+z5+z6+z7+z8+z9+w1+w2+w3+w4+w5+w6+w7+w8+w9;y}else{x}}\n",
     "fn g<T>(t:T)->T where T:Copy{let v=[1111,2222,3333,4444,5555,6666,7777,8888,9999,1010,1111,1212,1313,1414,1515,1616,1717,1818,1919,2020,2121,2222,2323,2424,2525,2626];call(aaaaaaaaaa,bbbbbbbbbb,cccccccccc,dddddddddd,eeeeeeeeee,ffffffffff,gggggggggg,hhhhhhhhhh);t}\nenum E{A{x:u8},B}\nimpl<T> Tr for S<T> where T:Clone{fn m(&self){loop{break;}}}\n",
     "mod m{pub fn h(a:u8,b:u8)->u8{match a{0=>b,_=>a+b+a+b+a+b+a+b+a+b+a+b+a+b+a+b+a+b+a+b+a+b+a+b+a+b+a+b+a+b+a+b+a+b+a+b+a+b+a+b+a+b+a+b+a+b+a+b+a+b}}}\ntrait Tr where Self:Sized{fn m(&self);}\nstruct P{x:u8,y:u8}\n",
+    // shows fn_params_layout (Tall / Compressed / Vertical: a short and a long parameter list) and
+    // imports_granularity (two imports of one crate)
+    "use aaa::bbb;use aaa::ccc;\nfn short(aa:u8,bb:u8)->u8{aa}\nfn long(aaaaaaaaaaaa:u32,bbbbbbbbbbbb:u32,cccccccccccc:u32,dddddddddddd:u32,eeeeeeeeeeee:u32,ffffffffffff:u32,gggggggggggg:u32,hhhhhhhhhhhh:u32)->u32{aaaaaaaaaaaa}\n",
 ];
 
 // ------------------------------------------------------------------------------------------------
@@ -691,6 +697,12 @@ fn gen_aliases(ctx: &Ctx) -> Vec<OpsCase> {
         let svals = option_values(ctx, succ);
         for a in &avals {
             let mut routes: Vec<Vec<Op>> = vec![vec![Op::Toml(vec![a.clone()])], vec![Op::Override(a.clone())], vec![Op::Set(a.clone())], vec![Op::SetCli(a.clone())]];
+            // the same alias twice with different values: the later source wins
+            for a2 in avals.iter().filter(|x| x.model != a.model) {
+                routes.push(vec![Op::Toml(vec![a.clone()]), Op::Override(a2.clone())]);
+                routes.push(vec![Op::Override(a.clone()), Op::Override(a2.clone())]);
+                routes.push(vec![Op::Toml(vec![a.clone()]), Op::Override(a2.clone()), Op::Override(a.clone())]);
+            }
             for s in &svals {
                 routes.push(vec![Op::Toml(vec![a.clone(), s.clone()])]);
                 routes.push(vec![Op::Toml(vec![s.clone(), a.clone()])]);
@@ -1097,7 +1109,7 @@ fn gen_layout(ctx: &Ctx, rng: &mut Rng, root: PathBuf) -> Layout {
     src_dirs.sort();
     src_dirs.dedup();
     for (i, d) in src_dirs.iter().enumerate() {
-        l.sources.push((d.join(format!("f{}.rs", i)), rng.below(PROBE_SOURCES.len())));
+        l.sources.push((d.join(format!("f{}.rs", i)), rng.below(N_GENERIC_SOURCES)));
     }
     // HOME
     match rng.below(6) {
@@ -1159,7 +1171,7 @@ fn enumerated_layouts(ctx: &Ctx, base: &Path) -> Vec<Layout> {
                 l.dirs.push(DirSpec { path: child.clone(), dotted: a, plain: b });
                 l.dirs.push(DirSpec { path: root.join("_home"), dotted: Slot::Absent, plain: e });
                 l.dirs.push(DirSpec { path: root.join("_xdg").join("rustfmt"), dotted: f, plain: Slot::Absent });
-                l.sources.push((child.join("f0.rs"), n % PROBE_SOURCES.len()));
+                l.sources.push((child.join("f0.rs"), n % N_GENERIC_SOURCES));
                 v.push(l);
             }
         }
@@ -1254,7 +1266,14 @@ struct LoadObs {
 }
 
 fn stage_loads(ctx: &Ctx, o: &mut Outcome, layouts: &[Layout], obs: &[LoadObs], with_binary: &dyn Fn(usize) -> u8) -> Vec<Option<String>> {
+    stage_loads2(ctx, o, layouts, obs, with_binary).0
+}
+
+/// (what load_config returned through the API, what `--print-config current` printed) per observation,
+/// both in the line-protocol encoding
+fn stage_loads2(ctx: &Ctx, o: &mut Outcome, layouts: &[Layout], obs: &[LoadObs], with_binary: &dyn Fn(usize) -> u8) -> (Vec<Option<String>>, Vec<Option<String>>) {
     let mut api_answers: Vec<Option<String>> = vec![];
+    let mut printed: Vec<Option<String>> = vec![None; obs.len()];
     // API
     let cases: Vec<Value> = obs
         .iter()
@@ -1345,12 +1364,13 @@ fn stage_loads(ctx: &Ctx, o: &mut Outcome, layouts: &[Layout], obs: &[LoadObs], 
             } else {
                 bin_err_kind(r)
             };
+            printed[*i] = Some(expect.clone());
             o.count("load-bin:print-config");
             o.count(&format!("load-bin-result:{}:{}", b.family, if r.code == Some(0) { "printed" } else { expect.split(':').take(2).collect::<Vec<_>>().join(":").leak() }));
             o.push("corr", "cfg.loadtoml", format!("cfg.loadtoml {}", args), expect, desc, !all_config_files(l).is_empty());
         }
     }
-    api_answers
+    (api_answers, printed)
 }
 
 /// `rustfmt` built with CFG_RELEASE_CHANNEL=stable (is_nightly_channel!() is a compile-time test)
@@ -1427,6 +1447,221 @@ fn stage_stable(ctx: &Ctx, o: &mut Outcome, layouts: &[Layout], obs: &[LoadObs])
             }
         }
         o.push("corr", "cfg.loadtoml", format!("cfg.loadtoml {}", l.load_args_ch(Some(dir), &b.opts, false)), expect, desc, !all_config_files(l).is_empty());
+    }
+}
+
+/// t (parent, `rustfmt.toml`), t/c (child, `.rustfmt.toml`), t/d (no file: resolves to the parent);
+/// one source in c and one in d
+fn two_level(root: &Path, parent: Option<Vec<Tv>>, child: Option<Vec<Tv>>, src: usize) -> Layout {
+    let t = root.join("t");
+    let mut l = Layout { root: root.to_path_buf(), dirs: vec![], contents: vec![], home: root.join("_home"), xdg: None, sources: vec![], extra: vec![] };
+    let mut slot = |l: &mut Layout, c: Option<Vec<Tv>>| match c {
+        Some(c) if c.is_empty() => Slot::Empty,
+        Some(c) => {
+            l.contents.push(c);
+            Slot::File(l.contents.len() - 1)
+        }
+        None => Slot::Absent,
+    };
+    let ps = slot(&mut l, parent);
+    let cs = slot(&mut l, child);
+    l.dirs.push(DirSpec { path: t.clone(), dotted: Slot::Absent, plain: ps });
+    l.dirs.push(DirSpec { path: t.join("c"), dotted: cs, plain: Slot::Absent });
+    l.dirs.push(DirSpec { path: t.join("d"), dotted: Slot::Absent, plain: Slot::Absent });
+    l.sources.push((t.join("c").join("f0.rs"), src));
+    l.sources.push((t.join("d").join("f1.rs"), src));
+    l
+}
+
+struct BothSources {
+    layouts: Vec<Layout>,
+    obs: Vec<LoadObs>,
+    /// per observation: the options that must hold these values, by the property itself (no model)
+    want: Vec<Vec<(String, String)>>,
+    /// per observation: also format the two sources under it (end to end)
+    e2e: Vec<bool>,
+}
+
+/// Every option given from BOTH a config file and the command line with different values (the
+/// command line must be in force), every dedicated flag over a file that sets its option, and the
+/// deprecated aliases / their successors from a file x from `--config` in every combination, over two
+/// levels of directories.
+fn gen_both_sources(ctx: &Ctx, base: &Path) -> BothSources {
+    let mut b = BothSources { layouts: vec![], obs: vec![], want: vec![], e2e: vec![] };
+    let mut n = 0usize;
+    let mut fresh = |b: &BothSources| {
+        let _ = b;
+        n += 1;
+        base.join(format!("b{}", n))
+    };
+    // ---- A. ordinary options: file value != --config value; the child's file and the parent's file
+    for k in &ctx.s.names {
+        let mut vals: Vec<Tv> = option_values(ctx, k).into_iter().filter(|t| t.cli.is_some()).collect();
+        if k == "required_version" {
+            vals.push(ctx.tv(k, "2.0.0"));
+        }
+        let mut distinct: Vec<Tv> = vec![];
+        for t in vals {
+            if !distinct.iter().any(|d| d.model == t.model) {
+                distinct.push(t);
+            }
+        }
+        if distinct.len() < 2 || ["merge_imports", "fn_args_layout", "hide_parse_errors"].contains(&k.as_str()) {
+            continue;
+        }
+        let (v1, v2) = (distinct[0].clone(), distinct[1].clone());
+        let root = fresh(&b);
+        let li = b.layouts.len();
+        b.layouts.push(two_level(&root, Some(vec![v1.clone()]), Some(vec![v2.clone()]), li % N_GENERIC_SOURCES));
+        for (dir, cli) in [("c", v1.clone()), ("d", v2.clone())] {
+            b.obs.push(LoadObs { layout: li, file_dir: Some(root.join("t").join(dir)), opts: Opts::default().with_inline(vec![cli.clone()]), family: "both-sources:option" });
+            b.want.push(vec![(k.clone(), cli.model.clone())]);
+            b.e2e.push(false);
+        }
+    }
+    // ---- B. dedicated flags over files that set the same options (two opposite files)
+    {
+        let f1: Vec<Tv> = vec![ctx.tv("edition", "2018"), ctx.tv("style_edition", "2021"), ctx.tv("emit_mode", "Json"), ctx.tv("color", "Never"), ctx.tv("make_backup", "false"), ctx.tv("verbose", "Quiet"), ctx.tv("skip_children", "false"), ctx.tv("error_on_unformatted", "false"), ctx.tv("print_misformatted_file_names", "false"), ctx.tv("unstable_features", "false")];
+        let f2: Vec<Tv> = vec![ctx.tv("edition", "2021"), ctx.tv("style_edition", "2018"), ctx.tv("emit_mode", "Checkstyle"), ctx.tv("color", "Always"), ctx.tv("make_backup", "false"), ctx.tv("verbose", "Verbose"), ctx.tv("skip_children", "false"), ctx.tv("error_on_unformatted", "false"), ctx.tv("print_misformatted_file_names", "false"), ctx.tv("unstable_features", "false")];
+        let root = fresh(&b);
+        let li = b.layouts.len();
+        b.layouts.push(two_level(&root, Some(f1), Some(f2), 0));
+        let x = |s: &str| format!("x{}", enc_str(s));
+        let flags: Vec<(Box<dyn Fn(&mut Opts)>, Vec<(&str, String)>)> = vec![
+            (Box::new(|o| o.api.edition = Some("2024".into())), vec![("edition", x("2024"))]),
+            (Box::new(|o| o.api.style_edition = Some("2015".into())), vec![("style_edition", x("2015"))]),
+            (Box::new(|o| o.api.emit = Some("Stdout".into())), vec![("emit_mode", x("Stdout"))]),
+            (Box::new(|o| o.api.check = true), vec![("emit_mode", x("Diff"))]),
+            (Box::new(|o| o.api.color = Some("Auto".into())), vec![("color", x("Auto"))]),
+            (Box::new(|o| o.api.backup = true), vec![("make_backup", "true".into())]),
+            (Box::new(|o| o.api.verbose = true), vec![("verbose", x("Verbose"))]),
+            (Box::new(|o| o.api.quiet = true), vec![("verbose", x("Quiet"))]),
+            (Box::new(|_| {}), vec![("verbose", x("Normal"))]),
+            (Box::new(|o| o.api.files_with_diff = true), vec![("print_misformatted_file_names", "true".into())]),
+            (Box::new(|o| { o.api.unstable = true; o.api.skip_children = Some(true); }), vec![("skip_children", "true".into()), ("unstable_features", "true".into())]),
+            (Box::new(|o| { o.api.unstable = true; o.api.error_on_unformatted = Some(true); }), vec![("error_on_unformatted", "true".into()), ("unstable_features", "true".into())]),
+        ];
+        for (f, want) in flags {
+            for dir in ["c", "d"] {
+                let mut oo = Opts::default();
+                f(&mut oo);
+                b.obs.push(LoadObs { layout: li, file_dir: Some(root.join("t").join(dir)), opts: oo, family: "both-sources:flag" });
+                b.want.push(want.iter().map(|(k, v)| (k.to_string(), v.clone())).collect());
+                b.e2e.push(false);
+            }
+        }
+    }
+    // ---- C. aliases and successors
+    let image = |alias: &str, v: &str| -> String {
+        match alias {
+            "merge_imports" => if v == "true" { "Crate".into() } else { "Preserve".into() },
+            "hide_parse_errors" => if v == "true" { "false".into() } else { "true".into() },
+            _ => v.to_string(),
+        }
+    };
+    // (alias, successor, two alias values, two successor values, default of the successor)
+    let fams: [(&str, &str, [&str; 2], [&str; 2], &str); 3] = [
+        ("fn_args_layout", "fn_params_layout", ["Vertical", "Compressed"], ["Compressed", "Vertical"], "Tall"),
+        ("merge_imports", "imports_granularity", ["true", "false"], ["Module", "Item"], "Preserve"),
+        ("hide_parse_errors", "show_parse_errors", ["true", "false"], ["false", "true"], "true"),
+    ];
+    for (alias, succ, avals, svals, sdefault) in fams {
+        for orient in 0..2 {
+            let (a1, a2) = (avals[orient], avals[1 - orient]);
+            let (s1, s2) = (svals[orient], svals[1 - orient]);
+            // (parent file, child file): what each level gives for (alias, successor)
+            type Lv = Option<(Option<&'static str>, Option<&'static str>, bool)>; // (alias, successor, successor written first)
+            let _: Lv = None;
+            let files: Vec<(Option<(Option<&str>, Option<&str>, bool)>, Option<(Option<&str>, Option<&str>, bool)>)> = vec![
+                (Some((None, None, false)), Some((Some(a1), None, false))),          // alias in the child only
+                (Some((Some(a1), None, false)), None),                              // alias in the parent, the child has no file
+                (Some((Some(a1), None, false)), Some((None, Some(s1), false))),     // successor in the child, alias in the parent
+                (None, Some((Some(a1), Some(s1), false))),                          // both in one file, alias first
+                (None, Some((Some(a1), Some(s1), true))),                           // both in one file, successor first
+                (Some((Some(a1), None, false)), Some((None, None, false))),         // unrelated child file: the parent's alias must not leak
+                (Some((Some(a1), None, false)), Some((Some(a2), None, false))),     // alias on both levels
+                (Some((None, Some(s1), false)), Some((Some(a1), None, false))),     // successor in the parent, alias in the child
+            ];
+            let clis: Vec<(Option<&str>, Option<&str>)> = vec![(None, None), (Some(a2), None), (Some(a1), None), (None, Some(s2)), (Some(a2), Some(s2))];
+            for (pf, cf) in &files {
+                let mk = |lv: &Option<(Option<&str>, Option<&str>, bool)>| -> Option<Vec<Tv>> {
+                    lv.as_ref().map(|(a, s, sfirst)| {
+                        let mut v = vec![];
+                        if let Some(a) = a { v.push(ctx.tv(alias, a)); }
+                        if let Some(s) = s { v.push(ctx.tv(succ, s)); }
+                        if *sfirst { v.reverse(); }
+                        if v.is_empty() { v.push(ctx.tv("tab_spaces", "3")); }
+                        v
+                    })
+                };
+                let root = fresh(&b);
+                let li = b.layouts.len();
+                b.layouts.push(two_level(&root, mk(pf), mk(cf), PARAMS_SOURCE));
+                for (ca, cs) in &clis {
+                    for dir in ["c", "d"] {
+                        // the file in force for this directory
+                        let lv = if dir == "c" && cf.is_some() { cf } else { pf };
+                        let (fa, fs) = lv.as_ref().map(|x| (x.0, x.1)).unwrap_or((None, None));
+                        // the property, spelled out: an explicit successor wins (command line before file), else the
+                        // alias (command line before file) maps to it, else the default
+                        let want = match (cs, fs, ca, fa) {
+                            (Some(s), _, _, _) => s.to_string(),
+                            (None, Some(s), _, _) => s.to_string(),
+                            (None, None, Some(a), _) => image(alias, a),
+                            (None, None, None, Some(a)) => image(alias, a),
+                            _ => sdefault.to_string(),
+                        };
+                        let mut inl = vec![];
+                        if let Some(a) = ca { inl.push(ctx.tv(alias, a)); }
+                        if let Some(s) = cs { inl.push(ctx.tv(succ, s)); }
+                        if (li + inl.len()) % 2 == 1 { inl.reverse(); }
+                        let mut oo = Opts::default().with_inline(inl);
+                        oo.split_config = li % 2 == 0;
+                        b.obs.push(LoadObs { layout: li, file_dir: Some(root.join("t").join(dir)), opts: oo, family: "both-sources:alias" });
+                        b.want.push(vec![(succ.to_string(), ctx.s.enc_val(succ, &want))]);
+                        // formatting shows the parameter layout and the import granularity
+                        b.e2e.push(alias != "hide_parse_errors" && dir == "c");
+                    }
+                }
+            }
+        }
+    }
+    b
+}
+
+/// runs the both-sources family: correspondence as for every load, and the property itself on what
+/// the API returned and on what the binary printed
+fn stage_both_sources(ctx: &Ctx, o: &mut Outcome, b: &BothSources) {
+    let idx: Vec<usize> = (0..b.layouts.len()).collect();
+    par_map(&idx, |i| b.layouts[*i].materialise());
+    let (api, printed) = stage_loads2(ctx, o, &b.layouts, &b.obs, &|_| 2);
+    for (i, ob) in b.obs.iter().enumerate() {
+        let l = &b.layouts[ob.layout];
+        let dir = ob.file_dir.as_ref().unwrap();
+        let file = l.sources.iter().find(|(p, _)| p.parent() == Some(dir.as_path())).map(|(p, _)| p.display().to_string()).unwrap_or_default();
+        let cmd = format!("cd {} && HOME={} rustfmt {} --print-config current {}", l.root.display(), l.home.display(), ob.opts.describe(), file);
+        let files: Vec<String> = l.dirs.iter().flat_map(|d| [(".rustfmt.toml", d.dotted), ("rustfmt.toml", d.plain)].into_iter().filter_map(move |(n, s)| match s { Slot::File(ci) => Some(format!("{}/{} = {{{}}}", d.path.strip_prefix(&l.root).unwrap_or(&d.path).display(), n, toml_text(&l.contents[ci]).trim_end().replace('\n', "; "))), Slot::Empty => Some(format!("{}/{} = {{}}", d.path.strip_prefix(&l.root).unwrap_or(&d.path).display(), n)), _ => None })).collect();
+        for (route, ans) in [("load_config", api[i].as_ref().and_then(|a| a.split_once(';').map(|x| x.1.to_string()))), ("--print-config current", printed[i].clone())] {
+            let ans = match ans {
+                Some(a) if !a.starts_with("err") && !a.starts_with('!') && a != "unprintable" => a,
+                _ => continue,
+            };
+            let f = parse_fields(&ans);
+            for (k, want) in &b.want[i] {
+                let got = match f.get(k) {
+                    Some(g) => g.0.clone(),
+                    None => continue, // an option that --print-config does not print
+                };
+                o.direct_evals += 1;
+                if &got != want {
+                    o.direct_failures.push(json!({
+                        "sig": format!("c14:{}", ob.family),
+                        "what": format!("{}: {} = {} is due (command line before the nearest file, an alias mapping to its successor), {} gives {}", ob.family, k, dec_model_val(want), route, dec_model_val(&got)),
+                        "cmd": cmd, "files": files,
+                    }));
+                }
+            }
+        }
     }
 }
 
@@ -1528,7 +1763,7 @@ fn gen_precedence(ctx: &Ctx, base: &Path, first_layout: usize) -> (Vec<Layout>, 
                 if !se.is_empty() { c.push(ctx.tv("style_edition", se)); }
                 if !ver.is_empty() { c.push(ctx.tv("version", ver)); }
                 if !ed.is_empty() { c.push(ctx.tv("edition", ed)); }
-                let l = Layout { root: root.clone(), dirs: vec![DirSpec { path: dir.clone(), dotted: Slot::Absent, plain: Slot::File(0) }], contents: vec![c], home: root.join("_home"), xdg: None, sources: vec![(dir.join("f0.rs"), n % PROBE_SOURCES.len())], extra: vec![] };
+                let l = Layout { root: root.clone(), dirs: vec![DirSpec { path: dir.clone(), dotted: Slot::Absent, plain: Slot::File(0) }], contents: vec![c], home: root.join("_home"), xdg: None, sources: vec![(dir.join("f0.rs"), n % N_GENERIC_SOURCES)], extra: vec![] };
                 for (ci, (fse, fed, inl)) in clis.iter().enumerate() {
                     let mut oo = Opts::default().with_inline(inl.iter().map(|(k, v)| ctx.tv(k, v)).collect());
                     oo.api.style_edition = fse.map(|x| x.to_string());
@@ -2029,6 +2264,14 @@ pub fn run(tier: &str, seed: u64, out: &Path) -> i32 {
         }
     }
     stage_e2e(&ctx, &mut o, &layouts, &sets, if thorough { 24 } else { 6 });
+
+    // both sources: file and command line with different values; aliases x successors over two levels
+    {
+        let b = gen_both_sources(&ctx, &lay);
+        stage_both_sources(&ctx, &mut o, &b);
+        let sets: Vec<E2eSet> = b.obs.iter().zip(b.e2e.iter()).filter(|(_, e)| **e).map(|(ob, _)| E2eSet { layout: ob.layout, opts: ob.opts.clone(), family: "both-sources" }).collect();
+        stage_e2e(&ctx, &mut o, &b.layouts, &sets, 2);
+    }
 
     probes(&ctx, &mut o);
 
